@@ -6,6 +6,7 @@ import (
 	"math"
 	"strings"
 
+	lisp "github.com/jig/lisp"
 	"github.com/jig/lisp/types"
 
 	"verifharness/internal/enum"
@@ -134,7 +135,7 @@ func init() {
 		}
 		pairs := &vf.Family{
 			Name:   "ordered-pairs",
-			Bounds: "all ordered pairs (a, b) over all data values of weight <=3 (quick) / <=4 (thorough): 17 atoms/empty collections (nil false true 0 1 2^53 2^53+1 maxint maxint-1 \"\" \"a\" :a 'a () [] {} #{}), lists/vectors of 1-2, maps of 1-2 entries and sets of 1-2 members over keys {\"a\" :a :b}; b also built along a second construction path (assoc/conj in reverse order, vec of list)",
+			Bounds: "all ordered pairs (a, b) over all data values of weight <=3 (quick) / <=4 (thorough): 17 atoms/empty collections (nil false true 0 1 2^53 2^53+1 maxint maxint-1 \"\" \"a\" :a 'a () [] {} #{}), lists/vectors of 1-2, maps of 1-2 entries and sets of 1-2 members over keys {\"a\" :a :b}; b also built along a second construction path (assoc/conj in reverse order, vec of list), and both written as quoted literals in a program text read under a module name",
 			Setup:  func(t string) { tier = t; env = lx.NewCoreEnv() },
 			N:      func(t string) int64 { tier = t; n := int64(len(valuesOf())); return n * n },
 			Describe: func(i int64) string {
@@ -168,6 +169,23 @@ func init() {
 				}
 				if got2 != want {
 					r.Violation(sig("= depends on the construction path"), fmt.Sprintf("expected %v got %v for b built as %s", want, got2, model.FromImpl(construct(b)).Lisp()))
+					return
+				}
+				// third path: both values written in a program text (every token then carries its own position)
+				text := fmt.Sprintf("(= (quote %s)\n   (quote %s))", a.Lisp(), b.Lisp())
+				ast, rerr := lisp.READ(text, types.NewCursorFile("c14"), nil)
+				if rerr != nil {
+					r.Violation("harness: comparison text does not read", text+": "+rerr.Error())
+					return
+				}
+				res3, err3, p3 := lx.Eval(context.Background(), ast, env)
+				r.Exec(1)
+				if p3 != nil || err3 != nil {
+					r.Violation(sig("= fails on values read from text"), fmt.Sprint(text, ": ", err3, p3))
+					return
+				}
+				if got3, _ := res3.(bool); got3 != want {
+					r.Violation(sig("= depends on where the values were written in the text"), fmt.Sprintf("%s: expected %v got %v", text, want, res3))
 				}
 			},
 		}
